@@ -48,6 +48,8 @@ func (f *ppFrame) GetStreamType() api.StreamType {
 	switch f.typ {
 	case ppResponse, ppHBAck:
 		return api.Response
+	case ppOneway:
+		return api.RequestOneWay
 	}
 	return api.Request
 }
@@ -71,7 +73,7 @@ func (p *ppProto) Decode(ctx context.Context, data api.IoBuffer) (interface{}, e
 		return nil, nil
 	}
 	b := data.Bytes()
-	if b[0] != ppMagic || b[1] > ppGoAway {
+	if b[0] != ppMagic || b[1] > ppOneway {
 		return nil, fmt.Errorf("vhpp: bad frame")
 	}
 	f := &ppFrame{typ: b[1], id: binary.BigEndian.Uint64(b[2:]), tok: binary.BigEndian.Uint32(b[10:])}
